@@ -7,6 +7,9 @@ use tracing::debug;
 
 use super::*;
 
+/// Extra cost of apply nodes and subquery expressions, which have no executor at all.
+const NO_EXECUTOR: f32 = 1e18;
+
 /// The main cost function.
 pub struct CostFn<'a> {
     pub egraph: &'a EGraph,
@@ -28,13 +31,20 @@ impl egg::CostFunction<Expr> for CostFn<'_> {
         let build = || rows(id) * cols(id);
         // The cost of an operation in hash table.
         let hash = |size: f32| (size + 1.0).log2() * 0.01;
+        // The cost of expressions is weighted by row counts, which are zero for empty tables:
+        // keep the cost of a subquery expression whatever the row count.
+        let no_executor = |c: f32| if c >= NO_EXECUTOR { c } else { 0.0 };
 
         let c = match enode {
             // plan nodes
             Scan(_) | Values(_) | IndexScan(_) => build(),
             Order([_, c]) => nlogn(rows(c)) + build() + costs(c),
-            Filter([exprs, c]) => costs(exprs) * rows(c) + build() + costs(c),
-            Proj([exprs, c]) | Window([exprs, c]) => costs(exprs) * rows(c) + costs(c),
+            Filter([exprs, c]) => {
+                costs(exprs) * rows(c) + no_executor(costs(exprs)) + build() + costs(c)
+            }
+            Proj([exprs, c]) | Window([exprs, c]) => {
+                costs(exprs) * rows(c) + no_executor(costs(exprs)) + costs(c)
+            }
             Agg([exprs, c]) => costs(exprs) * rows(c) + build() + costs(c),
             HashAgg([keys, aggs, c]) => {
                 (hash(rows(id)) + costs(keys) + costs(aggs)) * rows(c) + build() + costs(c)
@@ -49,7 +59,12 @@ impl egg::CostFunction<Expr> for CostFn<'_> {
                     RightOuter | FullOuter => 1e30,
                     _ => 0.0,
                 };
-                unsupported + costs(cond) * rows(l) * rows(r) + build() + costs(l) + costs(r)
+                unsupported
+                    + costs(cond) * rows(l) * rows(r)
+                    + no_executor(costs(cond))
+                    + build()
+                    + costs(l)
+                    + costs(r)
             }
             HashJoin([t, cond, lkey, rkey, l, r]) => {
                 let hash = match self.egraph[*t].nodes[0] {
@@ -71,7 +86,13 @@ impl egg::CostFunction<Expr> for CostFn<'_> {
                     + costs(l)
                     + costs(r)
             }
-            Apply([_, l, r]) => build() + costs(l) + rows(l) * costs(r),
+            // There is no executor for apply and subquery expressions: they must lose against
+            // every rewritten form, whatever the row counts.
+            Apply([_, l, r]) => NO_EXECUTOR + build() + costs(l) + rows(l) * costs(r),
+            Exists(c) => NO_EXECUTOR + costs(c),
+            In([a, b]) if !self.egraph[*b].nodes.iter().any(|e| matches!(e, List(_))) => {
+                NO_EXECUTOR + costs(a) + costs(b)
+            }
             Insert([_, _, c]) | CopyTo([_, c]) => rows(c) * cols(c) + costs(c),
             Empty(_) => 0.0,
             Max1Row(c) => costs(c),
